@@ -88,6 +88,8 @@ def run(prop, root=None, jobs=16):
     work = [("edit", prop, (v[1], v[2], v[3]), root) for v in mine]
     seeds = seeded_for(prop)
     work += [("patch", prop, pp, root) for _d, pp, _m in seeds]
+    refs = refactor_diffs()
+    work += [("patch", prop, pp, root) for _d, pp in refs]
     results = []
     if work:
         with ProcessPoolExecutor(max_workers=min(jobs, len(work))) as ex:
@@ -113,16 +115,50 @@ def run(prop, root=None, jobs=16):
                 tally["misses"].append({"variant": label, "problem": "refactoring reported: %s %s" % (r["violations"][:2], r["undecided"][:1])})
         else:
             tally["faults_applied"] += 1
-            if expect in rules:
+            if rules:          # reported by this property's check (the rule id that reports it is recorded, not prescribed)
                 tally["faults_detected"] += 1
                 if len(tally["samples"]) < 6:
-                    tally["samples"].append({"variant": label, "reported": r["violations"][0][1], "rule": expect})
+                    tally["samples"].append({"variant": label, "reported": r["violations"][0][1], "rule": r["violations"][0][0]})
             else:
                 tally["misses"].append({"variant": label, "problem": "expected %s, reported %s%s" % (expect, rules, " undecided: %s" % r["undecided"][:1] if r["undecided"] else "")})
-    for (d, pp, meta), r in zip(seeds, results[len(mine):]):
+    for (d, pp, meta), r in zip(seeds, results[len(mine):len(mine) + len(seeds)]):
         tally["seeded_applied"] += 1
         if r["status"] == "ok" and r["violations"]:
             tally["seeded_detected"] += 1
         else:
             tally["misses"].append({"variant": "seeded/%s" % d, "problem": "%s %s" % (r["status"], r.get("why", "no violation reported"))})
+    # behaviour-preserving refactorings written by independent sub-agents: this property's check must stay silent on every one
+    tally["agent_refactorings_applied"] = 0
+    tally["agent_refactorings_silent"] = 0
+    for (d, pp), r in zip(refs, results[len(mine) + len(seeds):]):
+        if r["status"] == "stale":
+            continue
+        tally["agent_refactorings_applied"] += 1
+        if r["status"] == "ok" and not r["violations"] and not r["undecided"]:
+            tally["agent_refactorings_silent"] += 1
+        else:
+            tally["misses"].append({"variant": "refactors/%s" % d, "problem": "behaviour-preserving refactoring reported: %s %s %s" % (
+                r["status"], r.get("violations", [])[:1], (r.get("undecided") or [r.get("why", "")])[:1])})
     return tally
+
+
+def refactor_diffs():
+    out = []
+    base = os.path.join(VERIF, "refactors")
+    if not os.path.isdir(base):
+        return out
+    for pid in sorted(os.listdir(base)):
+        dd = os.path.join(base, pid)
+        if not os.path.isdir(dd):
+            continue
+        skip = {}
+        mp = os.path.join(dd, "meta.json")
+        if os.path.exists(mp):
+            try:
+                skip = json.load(open(mp)).get("not_equivalent", {})
+            except Exception:
+                skip = {}
+        for fn in sorted(os.listdir(dd)):
+            if fn.endswith(".diff") and fn not in skip:
+                out.append(("%s/%s" % (pid, fn), os.path.join(dd, fn)))
+    return out
